@@ -128,7 +128,7 @@ class ConvertGate(Contract):
         if self.t in S.CONST:
             # constants may carry operands (any arity): the loop that un-registers them is cut by the prefix-count view
             fn = {'ALWAYS_TRUE': '_convert_always_true', 'ALWAYS_FALSE': '_convert_always_false'}[self.t]
-            it.loop_specs[(CONV + '::' + fn, 1)] = CM.UsersLoop(h, lambda it_, env: (env['_gate'].fields['_operands'], g), -1)
+            it.loop_specs[(CONV + '::' + fn, 1)] = CM.UsersLoop(h, g, -1)
         return [gate_obj, c], {}, {'h': h, 'g': g, 'S0': Sx}
 
     def on_raise(self, it, ctx, exc, st):
